@@ -694,9 +694,11 @@ func (a *Analysis) upper(v ssa.Value, at *ssa.BasicBlock, depth int, seen map[ss
 				better(Bound{Kind: ConstB, C: xb.C * yb.C, Why: "product of bounded values"})
 			}
 			// x <= len/c established above gives LenB for x; x*c <= len
-			if c, ok := constOf(x.Y); ok && xb.Kind == LenB && strings.Contains(xb.Why, "len/c") {
-				_ = c
+			if _, ok := constOf(x.Y); ok && xb.Kind == LenB && strings.Contains(xb.Why, "len/c") {
 				better(Bound{Kind: LenB, S: xb.S, Why: "x <= len/c, so x*c <= len"})
+			}
+			if _, ok := constOf(x.X); ok && yb.Kind == LenB && strings.Contains(yb.Why, "len/c") {
+				better(Bound{Kind: LenB, S: yb.S, Why: "x <= len/c, so c*x <= len"})
 			}
 		}
 	case *ssa.Phi:
@@ -1555,6 +1557,12 @@ func (a *Analysis) decideArith(o *Obl, x *ssa.BinOp, b *ssa.BasicBlock) {
 		if xb.Kind == LenB && strings.Contains(xb.Why, "len/c") {
 			if _, ok := constOf(x.Y); ok {
 				o.OK, o.How = true, "x <= len/c is a dominating guard, so x*c <= len"
+				return
+			}
+		}
+		if yb.Kind == LenB && strings.Contains(yb.Why, "len/c") {
+			if _, ok := constOf(x.X); ok {
+				o.OK, o.How = true, "x <= len/c is a dominating guard, so c*x <= len"
 				return
 			}
 		}
